@@ -418,8 +418,10 @@ def decode_t32(bs):
             out.append({"mn": "data", "off": i, "len": 4, "bits": hw + hw2})
             i += 4
             continue
-        if v == 0xBF00 or v == 0x46C0:
-            out.append({"mn": "nop", "off": i, "len": 2})
+        if v == 0x46C0:
+            out.append({"mn": "nop", "off": i, "len": 2})            # mov r8, r8: the NOP of every Thumb instruction set
+        elif v == 0xBF00:
+            out.append({"mn": "nop_hint", "off": i, "len": 2})       # NOP hint: ARMv6T2 and later only, UNDEFINED on Thumb-1 cores
         elif (v & 0xF800) == 0x4800:
             out.append({"mn": "ldr_lit", "off": i, "len": 2, "rt": (v >> 8) & 7, "u": 1, "imm": (v & 0xFF) * 4, "pc_bias": 4})
         elif (v & 0xFF87) == 0x4700:
@@ -452,7 +454,7 @@ def simulate_arm(ins, thumb, base_mod4, code_bytes):
         ln = k.get("len", 4)
         mn = k["mn"]
         executed.append(k)
-        if mn == "nop":
+        if mn in ("nop", "nop_hint"):
             pos += ln
             continue
         if mn == "mov_reg":
